@@ -151,8 +151,10 @@ impl FixedCapacityPoolStats {
 /// Free list head for a size class
 #[derive(Debug)]
 struct FreeListHead {
-    /// Head of free list (as offset)
-    head: AtomicU32,
+    /// Head of free list: packed (generation << 32 | offset).  The generation is bumped by every
+    /// successful pop and push, so a head that went A -> B -> A between a thread's load and its
+    /// compare-exchange no longer compares equal (ABA)
+    head: AtomicU64,
     /// Count of free blocks in this size class
     count: AtomicU32,
 }
@@ -160,9 +162,19 @@ struct FreeListHead {
 impl FreeListHead {
     fn new() -> Self {
         Self {
-            head: AtomicU32::new(LIST_TAIL),
+            head: AtomicU64::new(Self::pack(LIST_TAIL, 0)),
             count: AtomicU32::new(0),
         }
+    }
+
+    #[inline]
+    fn pack(offset: u32, generation: u32) -> u64 {
+        ((generation as u64) << 32) | offset as u64
+    }
+
+    #[inline]
+    fn unpack(packed: u64) -> (u32, u32) {
+        (packed as u32, (packed >> 32) as u32)
     }
 }
 
@@ -460,7 +472,7 @@ impl FixedCapacityMemoryPool {
         }
 
         // Set up free list head
-        free_list.head.store(0, Ordering::Relaxed);
+        free_list.head.store(FreeListHead::pack(0, 0), Ordering::Relaxed);
         free_list.count.store(self.config.total_blocks as u32, Ordering::Relaxed);
 
         Ok(())
@@ -495,7 +507,7 @@ impl FixedCapacityMemoryPool {
         }
 
         // Set up free list head
-        free_list.head.store(0, Ordering::Relaxed);
+        free_list.head.store(FreeListHead::pack(0, 0), Ordering::Relaxed);
         free_list.count.store(self.config.total_blocks as u32, Ordering::Relaxed);
 
         Ok(())
@@ -509,7 +521,8 @@ impl FixedCapacityMemoryPool {
         // Try to pop from free list
         loop {
             verif_point!("fc.alloc.load", size_class_index);
-            let current_head = free_list.head.load(Ordering::Acquire);
+            let packed = free_list.head.load(Ordering::Acquire);
+            let (current_head, generation) = FreeListHead::unpack(packed);
             
             if current_head == LIST_TAIL {
                 // Try to split from larger size class
@@ -533,8 +546,8 @@ impl FixedCapacityMemoryPool {
 
             // Try to update head atomically
             if free_list.head.compare_exchange_weak(
-                current_head,
-                next_offset,
+                packed,
+                FreeListHead::pack(next_offset, generation.wrapping_add(1)),
                 Ordering::Release,
                 Ordering::Relaxed,
             ).is_ok() {
@@ -553,7 +566,7 @@ impl FixedCapacityMemoryPool {
         for larger_class in (size_class_index + 1)..self.size_classes.len() {
             let free_lists = unsafe { &*self.free_lists.get() };
             let free_list = &free_lists[larger_class];
-            let head = free_list.head.load(Ordering::Acquire);
+            let (head, _) = FreeListHead::unpack(free_list.head.load(Ordering::Acquire));
             
             if head != LIST_TAIL {
                 // Try to allocate from larger class and split
@@ -587,13 +600,14 @@ impl FixedCapacityMemoryPool {
         // Add to free list
         loop {
             verif_point!("fc.free.load", size_class_index, offset);
-            let current_head = free_list.head.load(Ordering::Acquire);
+            let packed = free_list.head.load(Ordering::Acquire);
+            let (current_head, generation) = FreeListHead::unpack(packed);
             header.next = current_head;
             verif_point!("fc.free.cas", size_class_index, offset);
 
             if free_list.head.compare_exchange_weak(
-                current_head,
-                offset,
+                packed,
+                FreeListHead::pack(offset, generation.wrapping_add(1)),
                 Ordering::Release,
                 Ordering::Relaxed,
             ).is_ok() {
